@@ -85,7 +85,7 @@ mxArray *scalar(mxClassID classid) {
 }
 
 void checkScalar(const mxArray* array, const char* str) {
-  int m = mxGetM(array), n = mxGetN(array);
+  size_t m = mxGetM(array), n = mxGetN(array);
   if (m!=1 || n!=1)
     mexErrMsgIdAndTxt("wrap: not a scalar in ", str);
 }
